@@ -443,7 +443,8 @@ class C10(Check):
                 if not errf <= tolf:
                     res.violation("pi_law", dict(sig0, what="force_not_kX_plus_cV", grid=b["kind"], op=kind), f"op {oi} {kind} body {bi} ({b['kind']}, N={b['n']}): marker force deviates from k'X+c'V by {errf:.3e} > {tolf:.3e} (k'={m.k:.4g}, c'={m.c:.4g}, steps={m.steps})", oi)
                 if scale > 0:
-                    res.sim["max_force_err_units_x1000"] = max(res.sim.get("max_force_err_units_x1000", 0), int(1000 * errf / (eps * (m.steps + 1) * scale + tiny)))
+                    key = "max_force_err_units_rods_x1000" if b["kind"].startswith("rod") else "max_force_err_units_x1000"
+                    res.sim[key] = max(res.sim.get(key, 0), int(1000 * errf / (eps * (m.steps + 1) * scale + tiny)))
                 if b["evals_since_step"] >= 1:
                     res.probe("repeated_eval_without_step")
                 b["evals_since_step"] += 1
